@@ -7,7 +7,9 @@ package gwsim
 
 import (
 	"context"
+	"errors"
 	"fmt"
+	"net"
 	"regexp"
 	"runtime"
 	"strings"
@@ -64,6 +66,7 @@ type Step struct {
 	// "mqraw" broker sends Raw; "adv" virtual time advances D ms; "cancel"
 	// gateway shutdown (context cancel); "mqclose" broker closes the connection;
 	// "snrepeat" the client sends the D-th most recent of its datagrams again;
+	// "snfail" from now on the gateway's writes to the client fail (unreachable);
 	// "mqstall"/"mqunstall" the broker stops/resumes reading (writes to it block);
 	// "auto" replaces the reactive behaviour.
 	K      string       `json:"k"`
@@ -502,6 +505,9 @@ func (s *Session) Apply(i int, st Step) {
 		if raw != nil {
 			s.ClientSendRaw(raw)
 		}
+	case "snfail": // the client's address has become unreachable: the gateway's writes to it fail
+		s.ev(Event{Dir: EV, What: "SNFAIL"})
+		s.SN.SetFailWrites(&net.OpError{Op: "write", Net: "udp", Err: errors.New("network is unreachable")})
 	case "mqstall": // the broker stops reading: the gateway's writes to it block
 		s.ev(Event{Dir: EV, What: "MQSTALL"})
 		s.MQ.SetStalled(true)
